@@ -7,6 +7,7 @@
 -/
 import Tsg.Proofs.Prog
 import Tsg.Sem.Strict
+import Tsg.Proofs.ValueOrder
 
 namespace C01
 
@@ -113,5 +114,32 @@ theorem C01_for_iterates_in_order (cfg : Cfg) (fuel : Nat) (env : Env) (var : St
           Strict.execBlock cfg fuel env .plain body
           Strict.execFor cfg fuel env var body rest) := by
   rw [Strict.execFor]
+
+/-- **syntax nodes are values by identity.** Two different syntax nodes — of whatever kind, wherever they start (a node and
+its first child start at the same place) — are unequal for `eq`, are two elements of a set, and a set holding both answers
+differently from a set holding one; the same node is equal to itself and one element. -/
+theorem C01_syntax_nodes_by_identity (a b : Nat) :
+    Stdlib.eq [.syn a, .syn b] = .ok (.bool (a == b)) ∧
+    (a ≠ b → (Val.setOfList [.syn a, .syn b]).length = 2) ∧
+    (Val.setOfList [.syn a, .syn a]).length = 1 := by
+  refine ⟨rfl, ?_, ?_⟩
+  · intro hne
+    simp only [Val.setOfList, List.foldl, Val.setInsert, Val.cmp]
+    rcases Nat.lt_trichotomy b a with h | h | h
+    · have : compare b a = .lt := Nat.compare_eq_lt.mpr h
+      simp [this]
+    · exact absurd h.symm hne
+    · have : compare b a = .gt := Nat.compare_eq_gt.mpr h
+      simp [this]
+  · simp [Val.setOfList, List.foldl, Val.setInsert, Val.cmp]
+
+/-- **set values.** A set literal or set comprehension evaluates to `Val.set (Val.setOfList vs)`. That list holds exactly
+the values it was built from, each once, and two sets built from lists with the same members — in any order, with any
+repetitions — are the SAME value (so `eq`, attribute single-assignment and sets nested in sets compare sets by their
+members): the derived order of values is a lawful strict total order (`Proofs/ValueOrder.lean`). -/
+theorem C01_sets_are_extensional (vs ws : List Val) :
+    (∀ x, x ∈ Val.setOfList vs ↔ x ∈ vs) ∧ (Val.setOfList vs).Nodup ∧
+    (Val.setOfList vs = Val.setOfList ws ↔ ∀ x, x ∈ vs ↔ x ∈ ws) :=
+  ⟨Val.mem_setOfList_iff vs, Val.nodup_setOfList vs, Val.setOfList_eq_iff vs ws⟩
 
 end C01
